@@ -37,10 +37,10 @@ CONTRACT(get_max_fd)
 static int get_max_fd(void)
   ASSIGNS(G_ERR)
   ENS("C11/get_max_fd.highest_descriptor_number", IMPLIES(RV >= 0, gc.cfg_rlim_cur > (uint64_t) INT_MAX ? RV == INT_MAX : (uint64_t) RV + 1 == gc.cfg_rlim_cur))
-  ENS("C04/get_max_fd.failure_is_errno", IMPLIES(RV < 0, RV == -g.err && g.faults > OLD(g.faults)))
+  ENS("C04/get_max_fd.failure_is_errno", IMPLIES(RV < 0, RV == -g.e.err && g.e.faults > OLD(g.e.faults)))
   ;
 
-#define ONLY_MEMORY_EFFECT (g.open == OLD(g.open) && g.lib == OLD(g.lib) && g.cloexec == OLD(g.cloexec) && g.nonblock == OLD(g.nonblock) && g.sigmask == OLD(g.sigmask) && g.child_pid == OLD(g.child_pid) && g.child_live == OLD(g.child_live) && g.fork_stage == OLD(g.fork_stage) && g.nsig == OLD(g.nsig) && g.cwd_id == OLD(g.cwd_id) && g.in_child == OLD(g.in_child) && g.disp_default == OLD(g.disp_default) && g.reaps == OLD(g.reaps) && g.child_reaped == OLD(g.child_reaped) && g.kill_calls == OLD(g.kill_calls))
+#define ONLY_MEMORY_EFFECT (g.fds.open == OLD(g.fds.open) && g.fds.lib == OLD(g.fds.lib) && g.fds.cloexec == OLD(g.fds.cloexec) && g.fds.nonblock == OLD(g.fds.nonblock) && g.sigmask == OLD(g.sigmask) && g.child_pid == OLD(g.child_pid) && g.child_live == OLD(g.child_live) && g.fork_stage == OLD(g.fork_stage) && g.nsig == OLD(g.nsig) && g.cwd_id == OLD(g.cwd_id) && g.in_child == OLD(g.in_child) && g.disp_default == OLD(g.disp_default) && g.reaps == OLD(g.reaps) && g.child_reaped == OLD(g.child_reaped) && g.kill_calls == OLD(g.kill_calls))
 
 /* As seen by process_start: NULL with errno set, or a fresh string recorded as
    "current directory / path" (layout and memory safety are decided in
@@ -50,8 +50,8 @@ static char *path_prepend_cwd(const char *path)
   REQ_(path != NULL)
   ASSIGNS(G_ERR, g.prep_ptr, g.prep_src)
   ENS("C03/path_prepend_cwd.result_recorded", IMPLIES(RV != NULL, __CPROVER_is_fresh(RV, 1) && g.prep_ptr == RV && g.prep_src == path))
-  ENS("C04/path_prepend_cwd.null_sets_errno", IMPLIES(RV == NULL, g.faults > OLD(g.faults) && g.err > 0 && IMPLIES(OLD(g.faults) == 0, g.first_errno == g.err)))
-  ENS("C04/path_prepend_cwd.success_has_no_failed_call", IMPLIES(RV != NULL, g.faults == OLD(g.faults) && g.first_errno == OLD(g.first_errno)))
+  ENS("C04/path_prepend_cwd.null_sets_errno", IMPLIES(RV == NULL, g.e.faults > OLD(g.e.faults) && g.e.err > 0 && IMPLIES(OLD(g.e.faults) == 0, g.e.first_errno == g.e.err)))
+  ENS("C04/path_prepend_cwd.success_has_no_failed_call", IMPLIES(RV != NULL, g.e.faults == OLD(g.e.faults) && g.e.first_errno == OLD(g.e.first_errno)))
   ENS("C04/path_prepend_cwd.errno_sane", G_ERR_SANE)
   ;
 
@@ -66,18 +66,18 @@ static pid_t process_fork(const int *except, size_t num_except)
   ASSIGNS(g)
   ENS("C14/process_fork.ghost_sane", GHOST_SANE && G_ERR_SANE)
   ENS("C12/process_fork.parent_signal_mask_restored", IMPLIES(!g.in_child, g.sigmask == OLD(g.sigmask) && g.disp_default == OLD(g.disp_default) && g.cwd_id == OLD(g.cwd_id)))
-  ENS("C05/process_fork.parent_descriptors_as_before", IMPLIES(!g.in_child, g.open == OLD(g.open) && g.lib == OLD(g.lib) && g.cloexec == OLD(g.cloexec) && g.nonblock == OLD(g.nonblock)))
+  ENS("C05/process_fork.parent_descriptors_as_before", IMPLIES(!g.in_child, g.fds.open == OLD(g.fds.open) && g.fds.lib == OLD(g.fds.lib) && g.fds.cloexec == OLD(g.fds.cloexec) && g.fds.nonblock == OLD(g.fds.nonblock)))
   ENS("C04/process_fork.parent_never_sees_zero", IMPLIES(!g.in_child, RV != 0))
   ENS("C04+C06/process_fork.success_is_live_child", IMPLIES(!g.in_child && RV > 0, RV == g.child_pid && g.child_live && !g.child_reaped && g.reaps == OLD(g.reaps) && g.fork_stage == 2 && (g.child_fate == FATE_EXECED || g.child_fate == FATE_FAILED_LATE) && g.child_fate_errno > 0 && WST_LEGAL(g.child_wstatus)))
   ENS("C04+C05/process_fork.failure_leaves_no_child", IMPLIES(!g.in_child && RV < 0, !g.child_live && (g.child_pid == 0 || g.child_reaped)))
-  ENS("C04/process_fork.failure_is_real_cause", IMPLIES(!g.in_child && RV < 0 && OLD(g.faults) == 0, (g.faults > 0 && RV == -g.first_errno) || (g.child_fate == FATE_FAILED_EARLY && RV == -g.child_fate_errno)))
-  ENS("C04/process_fork.success_has_no_failed_call", IMPLIES(RV >= 0, g.faults == OLD(g.faults)))
+  ENS("C04/process_fork.failure_is_real_cause", IMPLIES(!g.in_child && RV < 0 && OLD(g.e.faults) == 0, (g.e.faults > 0 && RV == -g.e.first_errno) || (g.child_fate == FATE_FAILED_EARLY && RV == -g.child_fate_errno)))
+  ENS("C04/process_fork.success_has_no_failed_call", IMPLIES(RV >= 0, g.e.faults == OLD(g.e.faults)))
   ENS("C04/process_fork.side_of_fork", IMPLIES(g.in_child, gc.cfg_child_side) && IMPLIES(RV > 0, !gc.cfg_child_side) && g.dup_ptr == OLD(g.dup_ptr) && g.dup_src == OLD(g.dup_src) && g.prep_ptr == OLD(g.prep_ptr) && g.prep_src == OLD(g.prep_src) && g.execd == OLD(g.execd) && g.env_ptr == OLD(g.env_ptr) && g.env_a == OLD(g.env_a) && g.env_b == OLD(g.env_b) && g.last_freed_vec == OLD(g.last_freed_vec) && g.cwd_id == OLD(g.cwd_id) && g.now == OLD(g.now) && g.in_fd == OLD(g.in_fd) && g.stream_pos == OLD(g.stream_pos) && g.plan_pos == OLD(g.plan_pos))
-  ENS("C10/process_fork.excepted_descriptors_keep_their_objects", OBJ_KEPT(except[0]) && OBJ_KEPT(except[1]) && OBJ_KEPT(except[2]) && OBJ_KEPT(except[3]) && OBJ_KEPT(except[4]) && OBJ_KEPT(except[5]) && (g.rd & EXCEPT6_MASK(except)) == (OLD(g.rd) & EXCEPT6_MASK(except)) && (g.wr & EXCEPT6_MASK(except)) == (OLD(g.wr) & EXCEPT6_MASK(except)))
+  ENS("C10/process_fork.excepted_descriptors_keep_their_objects", OBJ_KEPT(except[0]) && OBJ_KEPT(except[1]) && OBJ_KEPT(except[2]) && OBJ_KEPT(except[3]) && OBJ_KEPT(except[4]) && OBJ_KEPT(except[5]) && (g.fds.rd & EXCEPT6_MASK(except)) == (OLD(g.fds.rd) & EXCEPT6_MASK(except)) && (g.fds.wr & EXCEPT6_MASK(except)) == (OLD(g.fds.wr) & EXCEPT6_MASK(except)))
   ENS("C06/process_fork.parent_sends_no_signal", g.nsig == OLD(g.nsig) && g.kill_calls == OLD(g.kill_calls))
   ENS("C12/process_fork.child_clean_signal_state", IMPLIES(g.in_child, RV == 0 && g.sigmask == 0 && DISP_ALL_DEFAULT))
-  ENS("C11/process_fork.child_keeps_only_excepted_descriptors", IMPLIES(g.in_child, (g.open & SOFT_LIMIT_MASK & ~EXCEPT6_MASK(except)) == 0 && (g.open & ~OLD(g.open)) == 0))
-  ENS("C10/process_fork.child_excepted_descriptors_untouched", IMPLIES(g.in_child, (g.open & EXCEPT6_MASK(except)) == (OLD(g.open) & EXCEPT6_MASK(except)) && (g.cloexec & EXCEPT6_MASK(except)) == (OLD(g.cloexec) & EXCEPT6_MASK(except))))
+  ENS("C11/process_fork.child_keeps_only_excepted_descriptors", IMPLIES(g.in_child, (g.fds.open & SOFT_LIMIT_MASK & ~EXCEPT6_MASK(except)) == 0 && (g.fds.open & ~OLD(g.fds.open)) == 0))
+  ENS("C10/process_fork.child_excepted_descriptors_untouched", IMPLIES(g.in_child, (g.fds.open & EXCEPT6_MASK(except)) == (OLD(g.fds.open) & EXCEPT6_MASK(except)) && (g.fds.cloexec & EXCEPT6_MASK(except)) == (OLD(g.fds.cloexec) & EXCEPT6_MASK(except))))
   ENS("C04/process_fork.child_reports_nothing_on_success", IMPLIES(g.in_child, g.child_reports == 0 && !g.exited))
   ;
 
